@@ -15,7 +15,7 @@ LEVEL_TEXT = ("Static structural proof of necessary conditions: (R2.1) the set o
               "exception that is caught, and PARENTHESES_MISMATCH is registered and reachable from string validation. "
               "Implicit exceptions (index/attribute/type errors from values), the tokenizer's span arithmetic, nesting = "
               "parenthesis nesting and print/re-parse equality are NOT decided.")
-LEVEL_EXTRA = 'Added after the seeded evaluation: (R2.3) every printer of a group visits every child, unfiltered; (R2.4) nothing returns before the parenthesis-count check. (R2.5) equality of tree objects never tests the other operand for truthiness. (R2.6) the validator decides parenthesis balance by a running depth over the text, not by comparing counts.'
+LEVEL_EXTRA = 'Added after the seeded evaluation: (R2.3) every printer of a group visits every child, unfiltered; (R2.4) nothing returns before the parenthesis-count check. (R2.5) equality of tree objects never tests the other operand for truthiness. (R2.6) the validator decides parenthesis balance by a running depth over the text, not by comparing counts. (R2.7) HedGroup.append attaches its argument on every path.'
 
 
 def exc_name(node):
@@ -268,6 +268,20 @@ def run(ctx):
                                       "an equal tree" % (norm(t)[:50], oname, c_.name))
         ctx.ok("R2.5", "%s.__eq__ does not test `%s` for truthiness" % (c_.name, oname), loc(eq, eq.node))
     ctx.floor("R2.5", "__eq__ of tree classes that define __bool__/__len__", n_eq, 1)
+
+    # ---------------- R2.7: whatever the parser appends to a group becomes a child (also an empty group)
+    ctx.rule("R2.7", "HedGroup.append attaches its argument on every path")
+    gap = prog.find_class("HedGroup").methods.get("append")
+    if gap is None:
+        raise AnalysisError("anchor HedGroup.append vanished")
+    ctx.saw(gap)
+    v27 = view(ctx, gap)
+    adds = [n_ for (n_, c) in v27.calls(lambda c: call_name(c) in ("append", "insert", "extend") and "children" in norm(c.func))]
+    ctx.floor("R2.7", "child insertions in HedGroup.append", len(adds), 1)
+    r27 = v27.reachable_from_entry(avoid=set(adds))
+    ctx.check(v27.cfg.exit not in r27, "R2.7", gap.qualname, "path without insertion", loc(gap, gap.node),
+              "HedGroup.append can return without attaching its argument: an empty group `()` inside another group is falsy and would be "
+              "dropped, so the tree no longer mirrors the parentheses of the text", desc="every path through append inserts the child")
 
 
 def print_all_children(ctx, rule):
